@@ -41,17 +41,14 @@ func c13CallbackChain(c *Ctx) {
 	rule := "C13/callback-chain"
 	fn := c.Fn("cmd/rdpgw/web", "OIDC.HandleCallback")
 	key := shortFn(fn)
-	find1 := func(what string, names ...string) *ssa.Call {
-		cs := callsTo(fn, names...)
-		if len(cs) != 1 {
-			c.Bad(rule, key+" "+what, fn.Pos(), "expected exactly one %s call, found %d", what, len(cs))
-			return nil
+	// steps are looked for in the callback and in the helpers it calls statically
+	step1 := func(what string, names ...string) (stepRef, bool) {
+		sts := c.findSteps(fn, names...)
+		if len(sts) != 1 {
+			c.Bad(rule, key+" "+what, fn.Pos(), "expected exactly one %s call, found %d", what, len(sts))
+			return stepRef{}, false
 		}
-		return cs[0].(*ssa.Call)
-	}
-	isHField := func(v ssa.Value, field string) bool {
-		b, f, ok := fieldLoad(strip(v))
-		return ok && f.Name() == field && b == ssa.Value(fn.Params[0])
+		return sts[0], true
 	}
 	queryGet := func(v ssa.Value, name string) bool {
 		call, ok := strip(v).(*ssa.Call)
@@ -61,49 +58,63 @@ func c13CallbackChain(c *Ctx) {
 		s, ok := constString(arg(call, 0))
 		return ok && s == name
 	}
-
-	get := find1("stateStore.Get", "(*"+cachePkg+".cache).Get", "(*"+cachePkg+".Cache).Get")
-	exch := find1("Exchange", "(*"+oauthPkg+".Config).Exchange")
-	verify := find1("Verify", "(*"+oidcPkg+".IDTokenVerifier).Verify")
-	claims := find1("IDToken.Claims", "(*"+oidcPkg+".IDToken).Claims")
-	unm := find1("json.Unmarshal", "encoding/json.Unmarshal")
-	find := find1("findUsernameInClaims", webPkgPath+".findUsernameInClaims")
-	save := find1("SaveSessionIdentity", webPkgPath+".SaveSessionIdentity")
-	if get == nil || exch == nil || verify == nil || claims == nil || unm == nil || find == nil || save == nil {
+	getS, ok1 := step1("stateStore.Get", "(*"+cachePkg+".cache).Get", "(*"+cachePkg+".Cache).Get")
+	exchS, ok2 := step1("Exchange", "(*"+oauthPkg+".Config).Exchange")
+	verifyS, ok3 := step1("Verify", "(*"+oidcPkg+".IDTokenVerifier).Verify")
+	claimsS, ok4 := step1("IDToken.Claims", "(*"+oidcPkg+".IDToken).Claims")
+	unmS, ok5 := step1("json.Unmarshal", "encoding/json.Unmarshal")
+	findS, ok6 := step1("findUsernameInClaims", webPkgPath+".findUsernameInClaims")
+	saveS, ok7 := step1("SaveSessionIdentity", webPkgPath+".SaveSessionIdentity")
+	if !(ok1 && ok2 && ok3 && ok4 && ok5 && ok6 && ok7) {
 		return
 	}
+	if len(findS.via) > 0 || len(saveS.via) > 0 {
+		c.Undecided(rule, key+" steps", fn.Pos(), "the user name lookup / session save is not in the callback itself")
+		return
+	}
+	get, exch, verify, claims, unm, find, save := getS.call, exchS.call, verifyS.call, claimsS.call, unmS.call, findS.call, saveS.call
+	hField := func(st stepRef, v ssa.Value, field string) bool {
+		root, path := c.fieldPathIn(st, v)
+		return root == ssa.Value(fn.Params[0]) && len(path) >= 1 && path[0] == field
+	}
 	// shapes
-	root, path := fieldPath(recvOf(get))
-	c.Check(root == ssa.Value(fn.Params[0]) && len(path) >= 1 && path[0] == "stateStore" && queryGet(arg(get, 0), "state"), rule, key+" state.shape", get.Pos(),
+	c.Check(hField(getS, recvOf(get), "stateStore") && queryGet(c.upIn(getS, arg(get, 0)), "state"), rule, key+" state.shape", get.Pos(),
 		"looks up the request's state parameter in the handler's own state store", "the state lookup is not h.stateStore.Get(<state query parameter>)")
-	c.Check(isHField(recvOf(exch), "oAuth2Config") && queryGet(arg(exch, 1), "code"), rule, key+" exchange.shape", exch.Pos(),
+	c.Check(hField(exchS, recvOf(exch), "oAuth2Config") && queryGet(c.upIn(exchS, arg(exch, 1)), "code"), rule, key+" exchange.shape", exch.Pos(),
 		"exchanges the request's code with the configured OAuth2 client", "the code exchange does not use h.oAuth2Config and the code query parameter")
 	// id_token: typeassert,ok of Extra(exchange token, "id_token")
 	var idTok *ssa.TypeAssert
-	if ex, ok := strip(arg(verify, 1)).(*ssa.Extract); ok && ex.Index == 0 {
+	if ex, ok := strip(c.upIn(verifyS, arg(verify, 1))).(*ssa.Extract); ok && ex.Index == 0 {
 		if ta, ok := ex.Tuple.(*ssa.TypeAssert); ok && ta.CommaOk {
 			if extra, ok := strip(ta.X).(*ssa.Call); ok && calleeName(extra) == "(*"+oauthPkg+".Token).Extra" {
-				if s, _ := constString(arg(extra, 0)); s == "id_token" && recvOf(extra) == resultOf(exch, 0) {
+				if s, _ := constString(arg(extra, 0)); s == "id_token" && (recvOf(extra) == resultOf(exch, 0) || c.norm(recvOf(extra)) == resultOf(exch, 0)) {
 					idTok = ta
 				}
 			}
 		}
 	}
-	c.Check(idTok != nil && isHField(recvOf(verify), "oidcTokenVerifier"), rule, key+" verify.shape", verify.Pos(),
+	c.Check(idTok != nil && hField(verifyS, recvOf(verify), "oidcTokenVerifier"), rule, key+" verify.shape", verify.Pos(),
 		"verifies the id_token of the exchanged token with the configured verifier", "Verify is not applied to the exchanged token's id_token with h.oidcTokenVerifier")
-	c.Check(recvOf(claims) == resultOf(verify, 0), rule, key+" claims.shape", claims.Pos(), "claims are read from the verified ID token", "claims are not read from the token that Verify returned")
+	c.Check(recvOf(claims) == resultOf(verify, 0) || c.norm(recvOf(claims)) == resultOf(verify, 0), rule, key+" claims.shape", claims.Pos(), "claims are read from the verified ID token", "claims are not read from the token that Verify returned")
 	// claims destination and unmarshal source are the same storage; unmarshal fills `data`; find reads `data`
-	claimsDst, _ := strip(arg(claims, 0)).(*ssa.FieldAddr)
+	sameStorage := func(a, b ssa.Value) bool {
+		if a == b {
+			return true
+		}
+		fa, ok1 := a.(*ssa.FieldAddr)
+		fb, ok2 := b.(*ssa.FieldAddr)
+		return ok1 && ok2 && fa.X == fb.X && fa.Field == fb.Field
+	}
+	claimsDst := strip(arg(claims, 0))
 	srcOK := false
-	if claimsDst != nil {
-		// unmarshal source: []byte(**(&resp.IDTokenClaims))
+	{
 		v := strip(arg(unm, 0))
 		for i := 0; i < 4; i++ {
 			a, ok := loadAddr(v)
 			if !ok {
 				break
 			}
-			if fa, ok := a.(*ssa.FieldAddr); ok && fa.X == claimsDst.X && fa.Field == claimsDst.Field {
+			if sameStorage(a, claimsDst) {
 				srcOK = true
 				break
 			}
@@ -113,44 +124,45 @@ func c13CallbackChain(c *Ctx) {
 	dataAlloc, _ := strip(arg(unm, 1)).(*ssa.Alloc)
 	findOK := false
 	if dataAlloc != nil {
-		if a, ok := loadAddr(strip(arg(find, 0))); ok && a == ssa.Value(dataAlloc) && dominatesInstr(unm, find) && dominatesInstr(claims, unm) {
+		fv := strip(arg(find, 0))
+		if a, ok := loadAddr(fv); !ok || a != ssa.Value(dataAlloc) {
+			fv = strip(c.downValue(fv, 0)) // the claims map handed back by the helper that decoded it
+		}
+		if a, ok := loadAddr(fv); ok && a == ssa.Value(dataAlloc) && c.before(fn, unmS, find) && (claims.Parent() != unm.Parent() || dominatesInstr(claims, unm)) {
 			findOK = true
 		}
 	}
 	c.Check(srcOK && findOK, rule, key+" username.source", find.Pos(), "the user name is looked up in the JSON of the verified token's claims", "the user name is not taken from the claims of the verified ID token")
 
 	userName := ssa.Value(find)
-	guards := []struct {
+	type guardT struct {
 		name string
+		st   stepRef
 		g    Guard
-	}{
-		{"state-found", GTrue(isVal(resultOf(get, 1)))},
-		{"exchange-ok", GErrNil(resultOf(exch, 1))},
-		{"verify-ok", GErrNil(resultOf(verify, 1))},
-		{"claims-ok", GErrNil(claims)},
-		{"json-ok", GErrNil(unm)},
-		{"username-nonempty", GNeq(isVal(userName), func(v ssa.Value) bool { s, ok := constString(v); return ok && s == "" })},
+	}
+	guards := []guardT{
+		{"state-found", getS, GTrue(isVal(resultOf(get, 1)))},
+		{"exchange-ok", exchS, GErrNil(resultOf(exch, 1))},
+		{"verify-ok", verifyS, GErrNil(resultOf(verify, 1))},
+		{"claims-ok", claimsS, GErrNil(claims)},
+		{"json-ok", unmS, GErrNil(unm)},
+		{"username-nonempty", findS, GNeq(isVal(userName), func(v ssa.Value) bool { s, ok := constString(v); return ok && s == "" })},
 	}
 	if idTok != nil {
 		for _, r := range *idTok.Referrers() {
 			if ex, ok := r.(*ssa.Extract); ok && ex.Index == 1 {
-				guards = append(guards, struct {
-					name string
-					g    Guard
-				}{"id_token-present", GTrue(isVal(ex))})
+				guards = append(guards, guardT{"id_token-present", verifyS, GTrue(isVal(ex))})
 			}
 		}
 	}
 	var targets []ssa.Instruction
-	for _, ci := range callsIn(fn) {
-		call, ok := ci.(*ssa.Call)
-		if !ok {
-			continue
-		}
-		if call.Call.IsInvoke() && call.Call.Method.Name() == "SetAuthenticated" {
-			if b, isC := constBool(call.Call.Args[0]); !isC || b {
-				targets = append(targets, call)
+	for _, sc := range c.invokesInScope(fn, "SetAuthenticated", 0) {
+		if b, isC := constBool(sc.args[0]); !isC || b {
+			if sc.call.Parent() != fn {
+				c.Undecided(rule, key+" SetAuthenticated", sc.call.Pos(), "the session is marked authenticated inside a helper of the callback")
+				continue
 			}
+			targets = append(targets, sc.call)
 		}
 	}
 	if len(targets) == 0 {
@@ -163,24 +175,18 @@ func c13CallbackChain(c *Ctx) {
 			tn = "SaveSessionIdentity"
 		}
 		for _, g := range guards {
-			ok, why := mustPass(fn, t, g.g)
+			ok, why := c.stepGatesG(fn, t, g.st, g.g)
 			c.Check(ok, rule, fmt.Sprintf("%s %s#%d %s", key, tn, ti, g.name), t.Pos(), tn+" only after "+g.name, tn+" is "+why+" ("+g.name+"): a failing callback can leave an authenticated session")
 		}
 	}
 	// the name and the access token stored
-	for _, ci := range callsIn(fn) {
-		call, ok := ci.(*ssa.Call)
-		if !ok || !call.Call.IsInvoke() {
-			continue
-		}
-		switch call.Call.Method.Name() {
-		case "SetUserName":
-			c.Check(call.Call.Args[0] == userName, rule, key+" SetUserName", call.Pos(), "the session's user name is the verified claim", "the user name stored is not the one found in the verified claims")
-		case "SetAttribute":
-			if s, _ := constString(call.Call.Args[0]); s == "accessToken" {
-				b, f, ok := fieldLoad(strip(call.Call.Args[1]))
-				c.Check(ok && f.Name() == "AccessToken" && b == resultOf(exch, 0), rule, key+" accessToken", call.Pos(), "access token attribute = exchanged token's AccessToken", "the access token attribute is not the exchanged token's")
-			}
+	for _, sc := range c.invokesInScope(fn, "SetUserName", 0) {
+		c.Check(strip(sc.args[0]) == userName, rule, key+" SetUserName", sc.call.Pos(), "the session's user name is the verified claim", "the user name stored is not the one found in the verified claims")
+	}
+	for _, sc := range c.invokesInScope(fn, "SetAttribute", 0) {
+		if s, _ := constString(sc.args[0]); s == "accessToken" {
+			b, f, ok := fieldLoad(strip(sc.args[1]))
+			c.Check(ok && f.Name() == "AccessToken" && (b == resultOf(exch, 0) || c.norm(b) == resultOf(exch, 0)), rule, key+" accessToken", sc.call.Pos(), "access token attribute = exchanged token's AccessToken", "the access token attribute is not the exchanged token's")
 		}
 	}
 	// the identity saved is the one that was marked
@@ -257,6 +263,9 @@ func c13WhoAuthenticates(c *Ctx) {
 			}
 			if _, f, ok := fieldOfAddr(s.Addr); ok && f.Name() == "authenticated" && f.Pkg() != nil && f.Pkg().Path() == identPkgPath {
 				ok2 := sf == "(*cmd/rdpgw/identity.User).SetAuthenticated" || sf == "(*cmd/rdpgw/identity.User).Unmarshal"
+				if um := c.FnOpt("cmd/rdpgw/identity", "User.Unmarshal"); !ok2 && um != nil && c.onlyCalledFrom(fn, um, 0) {
+					ok2 = true // the restoring half of Unmarshal, extracted
+				}
 				c.Check(ok2, rule, "store User.authenticated in "+sf, s.Pos(), "setter / session restore", "User.authenticated is written outside its setter and Unmarshal")
 			}
 		})
@@ -426,18 +435,36 @@ func c13Mirror(c *Ctx) {
 	mirT := c.NamedType("cmd/rdpgw/identity", "user").Underlying().(*types.Struct)
 	// Marshal: mirror literal fields <- u.field
 	m2u := map[string]string{}
-	var lit *ssa.Alloc
-	eachInstr(mar, func(in ssa.Instruction) {
-		if al, ok := in.(*ssa.Alloc); ok && typeIs(al.Type(), identPkgPath, "user") {
-			lit = al
+	// the literal is built in Marshal or in a method Marshal calls on the same receiver
+	onSameReceiver := func(root, f *ssa.Function) bool {
+		if f == root {
+			return true
 		}
-	})
+		for _, ci := range callsIn(root) {
+			if ci.Common().StaticCallee() == f && len(ci.Common().Args) > 0 && ci.Common().Args[0] == ssa.Value(root.Params[0]) {
+				return true
+			}
+		}
+		return false
+	}
+	var lit *ssa.Alloc
+	var litFn *ssa.Function
+	for _, sf := range scopeFuncs(mar, 1) {
+		if sf.Parent() != nil || !onSameReceiver(mar, sf) {
+			continue
+		}
+		eachInstr(sf, func(in ssa.Instruction) {
+			if al, ok := in.(*ssa.Alloc); ok && typeIs(al.Type(), identPkgPath, "user") {
+				lit, litFn = al, sf
+			}
+		})
+	}
 	if lit == nil {
 		c.Missing("mirror literal in Marshal")
 	}
 	for f, vs := range structFieldStores(lit) {
 		if len(vs) == 1 {
-			if b, uf, ok := fieldLoad(vs[0]); ok && b == ssa.Value(mar.Params[0]) {
+			if b, uf, ok := fieldLoad(vs[0]); ok && b == ssa.Value(litFn.Params[0]) {
 				m2u[f] = uf.Name()
 			}
 		}
@@ -445,26 +472,39 @@ func c13Mirror(c *Ctx) {
 	// the literal is what is encoded
 	encOK := false
 	for _, ci := range callsTo(mar, "(*encoding/gob.Encoder).Encode") {
-		if a, ok := loadAddr(strip(arg(ci, 0))); ok && a == ssa.Value(lit) {
+		v := strip(arg(ci, 0))
+		if a, ok := loadAddr(v); ok && a == ssa.Value(lit) {
 			encOK = true
+		} else if a, ok := loadAddr(strip(c.downValue(v, 0))); ok && a == ssa.Value(lit) {
+			encOK = true // the value returned by the exporting helper
 		}
 	}
 	c.Check(encOK, rule, "Marshal encodes-mirror", mar.Pos(), "the mirror literal is what gob encodes", "gob does not encode the mirror struct that was filled")
 	// Unmarshal: u.field <- uu.mirror
 	u2m := map[string]string{}
-	eachInstr(unm, func(in ssa.Instruction) {
-		s, ok := in.(*ssa.Store)
-		if !ok {
-			return
+	for _, sf := range scopeFuncs(unm, 1) {
+		if sf.Parent() != nil || !onSameReceiver(unm, sf) {
+			continue
 		}
-		b, uf, ok := fieldOfAddr(s.Addr)
-		if !ok || b != ssa.Value(unm.Params[0]) {
-			return
-		}
-		if _, mf, ok := fieldLoad(s.Val); ok {
-			u2m[uf.Name()] = mf.Name()
-		}
-	})
+		sf := sf
+		eachInstr(sf, func(in ssa.Instruction) {
+			s, ok := in.(*ssa.Store)
+			if !ok {
+				return
+			}
+			b, uf, ok := fieldOfAddr(s.Addr)
+			if !ok || b != ssa.Value(sf.Params[0]) {
+				return
+			}
+			if _, mf, ok := fieldLoad(s.Val); ok {
+				u2m[uf.Name()] = mf.Name()
+			} else if fv, ok := strip(s.Val).(*ssa.Field); ok {
+				if st, ok := fv.X.Type().Underlying().(*types.Struct); ok {
+					u2m[uf.Name()] = st.Field(fv.Field).Name()
+				}
+			}
+		})
+	}
 	for i := 0; i < mirT.NumFields(); i++ {
 		mf := mirT.Field(i).Name()
 		uf, ok := m2u[mf]
